@@ -35,16 +35,22 @@ for f in doc['fixed']:
                     found[k] = (i, sd, st, used, v)
             if len(found) >= f.get('want_exemplars', 3):
                 break
+        if len(found) >= f.get('want_exemplars', 3):
+            break
     ex.shutdown()
     items = sorted(found.values(), key=lambda x: len(x[3]))[:f.get('want_exemplars', 3)]
+    ex = runner.make_pool(spec)          # same mutant: these workers load the island with it
+    clean = runner.make_pool(spec)
     for (i, sd, st, used, v) in items:
-        mini, natt = runner.minimise(spec, used, st, v, mutant=mutant, max_attempts=800)
-        res, _ = runner.run_values(spec, mini, st, mutant=mutant, record=True, labels=True)
+        mini, natt = runner.in_worker(ex, runner._minimise_job, used, st, v, 800, mutant)
+        res, _ = runner.in_worker(ex, runner._run_values_job, mini, st, mutant, True, True)
         v2 = next(x for x in res['violations'] if runner.vkey(x) == runner.vkey(v))
         path = os.path.join(d, f'{f["property"]}-{v["kind"]}-{runner.hash_str(v["signature"] + st) % 10**8:08d}.json')
         runner.write_replay(spec, path, mini, st, v2, seed=sd, index=i, res=res,
                             shrink_attempts=natt, original_len=len(used), mutant=mutant)
         # must not reproduce without the mutant
-        res0, _ = runner.run_values(spec, mini, st)
-        clean = not any(runner.vkey(x) == runner.vkey(v) for x in res0['violations'])
-        print(f['id'], path, runner.vkey(v), 'tape', len(mini), 'clean-on-tree' if clean else 'STILL FAILS ON TREE')
+        res0, _ = runner.in_worker(clean, runner._run_values_job, mini, st, None, False, False)
+        ok = not any(spec.relevant(x) for x in res0['violations'])
+        print(f['id'], path, runner.vkey(v), 'tape', len(mini), 'clean-on-tree' if ok else 'STILL FAILS ON TREE')
+    ex.shutdown()
+    clean.shutdown()
